@@ -212,11 +212,18 @@ class Builder:
                 return Number(float(x), "real")
             return Number(int(x), t["dt"])
         if c == "Ten":
+            if self.leaf_cache is not None:
+                k = repr(t)
+                if k in self.leaf_cache:
+                    return self.leaf_cache[k]
             a = leaf_array(t)
             if self.watch is not None:
                 self.watch.add_array(a)
             ins = OrderedDict((n, Bint[s]) for n, s in t["ins"])
-            return Tensor(a, ins, "real" if t["dt"] == 0 else t["dt"])
+            r = Tensor(a, ins, "real" if t["dt"] == 0 else t["dt"])
+            if self.leaf_cache is not None:
+                self.leaf_cache[repr(t)] = r
+            return r
         if c == "Un":
             x = self.build(t["arg"])
             n, p = t["op"]["n"], t["op"]["p"]
@@ -279,3 +286,4 @@ class Builder:
         raise NotImplementedError(c)
 
     rename_as_str = False
+    leaf_cache = None
